@@ -76,7 +76,7 @@ U64 = "nop::EncodingIO<unsigned long>::Read<vt::SpecReader>"
 out.append("contract " + U64 + "\n"
   "  requires SR_PRE(reader) && FRESH(value)\n  " + GH + "\n"
   "  assigns *value, reader->pos, reader->failed, reader->calls\n"
-  "  ensures reader->pos <= reader->len && reader->calls - OLD(reader->calls) >= 1 && reader->calls - OLD(reader->calls) <= 2\n"
+  "  ensures reader->pos <= reader->len && reader->pos >= OLD(reader->pos) && reader->calls - OLD(reader->calls) >= 1 && reader->calls - OLD(reader->calls) <= 2\n"
   "  ensures ERR(RET) == 0 ==> (reader->failed == 0 && " + HDR + " && reader->pos == OLD(reader->pos) + vt_dl)\n"
   "  ensures (ERR(RET) == 0 && vt_dl == 1) ==> *value == vt_p\n"
   "  ensures (ERR(RET) == 0 && vt_dl == 2) ==> *value == S1(reader)\n"
@@ -287,7 +287,7 @@ def top(cxx, tag, es, is_string, err_len):
           "ensures (%s && %s < %s) ==> ERR(RET) == E_WriteLimitReached" % (wnofault(4), ROOM, TOT)]
     out.append("contract %s\n%s" % (key, "".join("  %s\n" % c for c in cl)))
     out.append("job vm_fn_write_%s\n  props C03 C06 C10\n  pre vt_dl = nondet_ulong(); vt_n = nondet_ulong(); vt_k = nondet_ulong(); vt_k2 = nondet_ulong();\n"
-               "  enforce %s\n  replace vt::SpecWriter::Write(unsigned char)\n  replace nop::Encoding<%s>::WritePayload<vt::SpecWriter>\n  timeout 1800\n"
+               "  enforce %s\n  replace vt::SpecWriter::Write(unsigned char)\n  replace nop::Encoding<%s>::WritePayload<vt::SpecWriter>\n  tier thorough\n  timeout 3600\n"
                "  note unbounded: the whole encoder of the container for every element count up to 2^36; bytes written == 1 + header + payload == Size() (contract sd_size_%s)\n" % (tag, key, cxx, tag))
 top("std::vector<unsigned int>", "vecu32", 4, False, "E_InvalidContainerLength")
 top("std::vector<unsigned char>", "vecu8", 1, False, "E_InvalidContainerLength")
@@ -330,10 +330,60 @@ def ser(cxx, tag, es, is_string):
           "ensures (OLD(writer->fail_at) == OLD(writer->calls)) ==> (ERR(RET) == writer->fail_code && writer->writes == OLD(writer->writes))"]
     out.append("contract %s\n%s" % (key, "".join("  %s\n" % c for c in cl)))
     out.append("job vm_fn_serialize_%s\n  props C06 C10\n  pre vt_dl = nondet_ulong(); vt_n = nondet_ulong(); vt_k = nondet_ulong(); vt_k2 = nondet_ulong();\n"
-               "  enforce %s\n  replace %s\n  replace vt::SpecWriter::Prepare(unsigned long)\n  replace %s\n  timeout 1800\n"
-               "  note unbounded: GetSize bytes of room always suffice and exactly GetSize bytes are written; a Write whose Prepare fails writes nothing\n" % (tag, key, skey, wkey))
+               "  enforce %s\n  replace %s\n  replace vt::SpecWriter::Prepare(unsigned long)\n  replace %s\n  tier %s\n  timeout 3600\n"
+               "  note unbounded: GetSize bytes of room always suffice and exactly GetSize bytes are written; a Write whose Prepare fails writes nothing\n" % (tag, key, skey, wkey, "quick" if tag == "vecu8" else "thorough"))
 ser("std::vector<unsigned int>", "vecu32", 4, False)
 ser("std::vector<unsigned char>", "vecu8", 1, False)
 ser("std::basic_string<char>", "str", 1, True)
 ser("std::basic_string<wchar_t>", "wstr", 4, True)
+
+# =========================================================================================================
+# Element-wise containers: std::vector<float> (non-integral elements: ARY, one Encoding<T>::Read + push_back per
+# element).  LOOP CONTRACT over the element loop of the real ReadPayload, element decoder, uint64 decoder and push_back
+# replaced by contracts: for EVERY declared element count up to 2^64-1 the loop terminates, every push_back is preceded
+# by a successful element read that consumed 5 bytes (so at most (bytes consumed)/5 elements are ever allocated — C02's
+# "never allocates more than a constant multiple of the input length", also for a count field inflated to 2^64-1), on
+# success count, position and every element prefix are as documented, faults are returned verbatim.
+out.append("c #define VT_G_ALLOC _ZN2vtL19g_model_alloc_bytesE")
+out.append("c unsigned long vt_pos0;")
+F32 = "nop::EncodingIO<float>::Read<vt::SpecReader>"
+AVt = "(reader->len - OLD(reader->pos))"
+out.append("contract " + F32 + "\n"
+  "  requires SR_PRE(reader) && FRESH(value)\n"
+  "  assigns *value, reader->pos, reader->failed, reader->calls\n"
+  "  ensures reader->pos <= reader->len && reader->pos >= OLD(reader->pos)\n"
+  "  ensures ERR(RET) == 0 ==> (reader->failed == 0 && " + AVt + " >= 5 && reader->pos == OLD(reader->pos) + 5 && reader->src[OLD(reader->pos)] == FMT_F32)\n"
+  "  ensures ERR(RET) == 0 ==> *(unsigned int*)value == ((unsigned int)reader->src[OLD(reader->pos) + 1] | ((unsigned int)reader->src[OLD(reader->pos) + 2] << 8) | ((unsigned int)reader->src[OLD(reader->pos) + 3] << 16) | ((unsigned int)reader->src[OLD(reader->pos) + 4] << 24))\n"
+  "  ensures ERR(RET) != 0 ==> reader->pos <= OLD(reader->pos) + 1\n"
+  "  ensures (" + nofault(2) + " && " + AVt + " >= 5 && reader->src[OLD(reader->pos)] == FMT_F32) ==> ERR(RET) == 0\n"
+  "  ensures (" + nofault(2) + " && " + AVt + " >= 1 && reader->src[OLD(reader->pos)] != FMT_F32) ==> ERR(RET) == E_UnexpectedEncodingType\n"
+  "  ensures (" + nofault(2) + " && (" + AVt + " == 0 || (reader->src[OLD(reader->pos)] == FMT_F32 && " + AVt + " < 5))) ==> ERR(RET) == E_ReadLimitReached\n"
+  "  ensures (ERR(RET) != 0 && ERR(RET) != E_UnexpectedEncodingType) ==> reader->failed == ERR(RET)\n"
+  )
+out.append("job vm_fn_read_f32_spec\n  props C02 C04\n  enforce " + F32 + "\n  timeout 900\n")
+PB = "std::vector<float>::push_back(float &&)"
+out.append("contract " + PB + "\n"
+  "  requires FRESH(this) && this->size_ < (1UL << 40)\n"
+  "  assigns this->data_, this->size_, VT_G_ALLOC\n"
+  "  ensures this->size_ == OLD(this->size_) + 1 && VT_G_ALLOC == OLD(VT_G_ALLOC) + 4 && FRESHN(this->data_, this->size_ * 4)\n")
+RPF = "nop::Encoding<std::vector<float>>::ReadPayload<vt::SpecReader>"
+out.append("contract " + RPF + "\n"
+  "  requires SR_PRE(reader) && FRESH(value) && VT_G_ALLOC == 0 && vt_pos0 == reader->pos\n  " + GH + "\n  " + VAL + "\n"
+  "  assigns value->data_, value->size_, reader->pos, reader->failed, reader->calls, VT_G_ALLOC\n"
+  "  ensures reader->pos <= reader->len\n"
+  "  ensures VT_G_ALLOC <= 4 * ((reader->pos - OLD(reader->pos)) / 5)\n"
+  "  ensures ERR(RET) == 0 ==> (reader->failed == 0 && " + HDR + " && vt_val <= VT_MAXLEN / 5 && value->size_ == vt_val && VT_G_ALLOC == 4 * vt_val && reader->pos == OLD(reader->pos) + vt_dl + 5 * vt_val)\n"
+  "  ensures (ERR(RET) == 0 && vt_val <= VT_MAXLEN / 5 && vt_k < vt_val) ==> reader->src[OLD(reader->pos) + vt_dl + 5 * vt_k] == FMT_F32\n"
+  "  ensures (ERR(RET) != 0 && ERR(RET) != E_UnexpectedEncodingType) ==> reader->failed == ERR(RET)\n"
+  "  ensures (" + nofault(2) + " && " + AVt + " >= 1 && vt_dl == 0) ==> ERR(RET) == E_UnexpectedEncodingType\n")
+out.append("loop " + RPF + " #0\n"
+  "  assigns i, status, value->data_, value->size_, reader->pos, reader->failed, reader->calls, VT_G_ALLOC\n"
+  "  invariant i <= size && i <= VT_MAXLEN / 5 && value->size_ == i && VT_G_ALLOC == 4 * i\n"
+  "  invariant reader->failed == 0 && reader->fail_code >= 1 && reader->fail_code <= 18 && reader->pos <= reader->len && reader->len <= VT_MAXLEN\n"
+  "  invariant reader->pos == vt_pos0 + vt_dl + 5 * i\n"
+  "  invariant vt_k < i ==> reader->src[vt_pos0 + vt_dl + 5 * vt_k] == FMT_F32\n"
+  "  decreases size - i\n")
+out.append("job vm_fn_readpayload_vecf\n  props C02 C04 C10\n  pre vt_p = nondet_uchar(); vt_dl = nondet_ulong(); vt_val = nondet_ulong(); vt_k = nondet_ulong(); vt_pos0 = nondet_ulong();\n"
+  "  enforce " + RPF + "\n  loops\n  replace " + U64 + "\n  replace " + F32 + "\n  replace " + PB + "\n  timeout 1800\n"
+  "  note unbounded by LOOP CONTRACT: every declared element count up to 2^64-1; termination by the decreases clause\n")
 print("\n".join(out))
